@@ -228,6 +228,11 @@ func (s *storage) walkPack(verbose bool, packID int,
 				log.Printf("found %s at %d", ref, pos)
 			}
 		}
+		if fi, err := fh.Stat(); err == nil && pos+1+int64(m)+int64(size) > fi.Size() {
+			// The body of the last record is not completely there (the
+			// process died while appending it): it is not a blob.
+			break
+		}
 		if err = walker(packID, ref, pos+1+int64(m), size); err != nil {
 			return err
 		}
